@@ -71,7 +71,9 @@ def triples(rng, n):
     out = [(0.0, 1.0, 0.1), (0.0, 0.3, 0.1), (0.0, 1.0, 0.3), (0.0, 2.0, 0.25), (-3.0, 1.0, 0.3), (0.0, 0.05, 0.1),
            (0.0, 1.0, 1.0 / 3.0), (-0.7, 0.5, 0.1), (2.5, 2.5, 0.1), (0.0, 20.0, 0.1), (-20.0, 0.0, 0.01), (0.0, 1.1, 0.25),
            # large absolute times with exactly representable steps (epoch seconds, 2**23): the end test is relative to the step
-           (1700000000.0, 1700000060.0, 1.0), (8388608.0, 8388608.5, 0.0078125), (-1700000000.0, -1699999990.0, 0.5)]
+           (1700000000.0, 1700000060.0, 1.0), (8388608.0, 8388608.5, 0.0078125), (-1700000000.0, -1699999990.0, 0.5),
+           # very small steps in the model's time unit (nanoseconds on a seconds axis): any rounding allowance has to be relative to the step
+           (2e-8, 5e-8, 2.5e-10), (0.0, 1e-9, 3e-10), (0.0, 1e-6, 1e-8), (0.0, 3.5e-12, 1e-12), (1e-7, 1.0000004e-7, 1e-13)]
     hs = [0.1, 0.3, 1.0 / 3.0, 0.25, 0.01, 0.7, 0.05, 1e-3, 0.2, 0.6]
     while len(out) < n:
         h = float(rng.choice(hs))
@@ -200,6 +202,38 @@ def run(rep, tier, seed):
                             break
                 except Exception as ex:  # noqa
                     fails.append((case, f"fdae_solver: raised {type(ex).__name__}: {ex}"))
+    # starts given as integer-typed arrays (np.array([2, 4])): legal input, the states become real after the first step
+    from scipy.sparse import csc_array as _csc
+    from Solverz.num_api.num_eqn import nDAE as _nDAE
+    Mi = _csc((np.array([1.0]), (np.array([0]), np.array([0]))), shape=(2, 2))
+    dint = _nDAE(Mi, lambda t, y, p: np.array([-y[0] + 0.1 * y[1], y[1] - 2.0 * y[0]]), lambda t, y, p: _csc(np.array([[-1.0, 0.1], [-2.0, 1.0]])), {})
+    for start in (np.array([2, 4]), np.array([-3, -6], dtype=np.int32), np.array([1, 2], dtype=np.int64)):
+        for h in (0.1, 0.03):
+            for name, solver in (("backward_euler", backward_euler), ("implicit_trapezoid", implicit_trapezoid), ("fdae_solver", fdae_solver)):
+                case = dict(solver=name, problem="x' = -x + z/10, 0 = z - 2x" if name != "fdae_solver" else "x - x_prev + h x^3", h=h,
+                            start=[int(v) for v in start], start_dtype=str(start.dtype))
+                try:
+                    if name == "fdae_solver":
+                        fd, _ = fdae_problem(h)
+                        sol = quiet(solver, fd, [0.0, 10 * h], start[:1].copy(), Opt(step_size=h, ite_tol=1e-9))
+                    else:
+                        sol = quiet(solver, dint, [0.0, 10 * h], start.copy(), Opt(step_size=h, ite_tol=1e-9))
+                except Exception as ex:  # noqa
+                    fails.append((case, f"{name}: raised {type(ex).__name__}: {ex}")); continue
+                T, Y = np.asarray(sol.T), np.asarray(sol.Y, dtype=float)
+                Md = Mi.toarray()
+                for k in range(len(T) - 1):
+                    nstepeq += 1
+                    if name == "backward_euler":
+                        r = Md @ (Y[k + 1] - Y[k]) - h * dint.F(T[k + 1], Y[k + 1], {})
+                    elif name == "implicit_trapezoid":
+                        r = Md @ (Y[k + 1] - Y[k]) - h / 2 * (dint.F(T[k + 1], Y[k + 1], {}) + dint.F(T[k], Y[k], {}))
+                    else:
+                        r = fd.F(T[k + 1], Y[k + 1], {}, Y[k])
+                    if not np.max(np.abs(r)) < 1e-8:
+                        fails.append((dict(case, step=k), f"{name} started from the integer-typed array {start!r}: step {k} violates its discrete "
+                                                          f"equation: residual {np.max(np.abs(r)):.3g}"))
+                        break
     # steps larger than 1 (the Newton test must be on the step equation itself, not on a per-unit-time scaling of it)
     daem, ym = dae_problem("mild")
     for h in ([2.0] if tier == "quick" else [2.0, 4.0, 1.5]):
